@@ -5,12 +5,12 @@ import json, sys
 CHECKS = {
  "C05": dict(
    technique="model-based property testing (proptest): generated operation histories interpreted on Range and on a reference model, full read-API comparison after every step; thorough adds exhaustive enumeration of all histories of length <=3 over a 3x3 universe",
-   text="Generated-history exploration against a reference model. Every accessor (start/end/size/rows/cells/used_cells/get/get_value/Index, forward and reverse iteration) is compared with the model after every operation, so a Range that is not a full rectangle or a set_value/range/from_sparse that moves, drops or invents a cell is observed at the step where it happens. Exploration, not proof: histories longer than 25 ops or with areas beyond ~20x20 are not generated.",
+   text="Generated-history exploration against a reference model. Every accessor (start/end/size/rows/cells/used_cells/get/get_value/Index, forward and reverse iteration) is compared with the model after every operation, so a Range that is not a full rectangle or a set_value/range/from_sparse that moves, drops or invents a cell is observed at the step where it happens. Exploration, not proof: histories longer than 25 ops or with areas beyond ~20x20 are not generated. A separate sub-check builds long thin rectangles whose span is around and beyond the sheet limits (16383-20000 columns, 65535-1200000 rows).",
    note="Trusts the harness's reference model (a BTreeMap plus optional bounds). Coordinates < 2^31+20; constructors called within their documented preconditions only.",
    design="4/C05"),
  "C09": dict(
    technique="property-based differential testing (proptest): generated (range, header configuration, target record type) cases compared with a reference deserialiser written from the statement; metamorphic column permutation; size_hint bracket checked around every next()",
-   text="Generated-input exploration with an independent reference deserialiser over 17 concrete target types (Vec<T>, tuples, BTreeMap/HashMap, two structs with Option fields) and four header configurations, at arbitrary origins. Item count and order, per-cell conversion rules, HeaderNotFound, CellError kind and absolute position, and size_hint are all asserted; conversions the statement does not fix are wildcards. Exploration only: ranges up to 8x6, a fixed menu of target types.",
+   text="Generated-input exploration with an independent reference deserialiser over 17 concrete target types (Vec<T>, tuples, BTreeMap/HashMap, two structs with Option fields) and four header configurations, at arbitrary origins. Item count and order, per-cell conversion rules, HeaderNotFound, CellError kind and absolute position, and size_hint are all asserted; conversions the statement does not fix are wildcards. Exploration only: ranges up to 8x6, a fixed menu of target types. Narrow integer targets (Vec<u32>, Vec<i32>, Vec<u8>, Vec<i16>) with out-of-range cells check the documented plain casts.",
    note="Trusts the reference conversion table in props/c09.rs (written from the statement). Header names unique after trimming; header cells are strings.",
    design="4/C09"),
  "C11": dict(
@@ -35,12 +35,12 @@ CHECKS = {
    design="4/C15"),
  "C19": dict(
    technique="property-based round-trip testing (proptest): generated Unicode strings x storage forms encoded by the harness writers, exact string equality at the cell",
-   text="Exploration of the string space (XML specials, edge/repeated spaces, TAB/LF/CR, combining marks, astral characters, empty, up to 32767 units) crossed with storage forms. xlsx: shared/inline/t=str, plain/rich runs/phonetic, entities/hex/decimal references/CDATA, empty shared items of four kinds before and between used items (index alignment). xlsb (BrtCellSt / BrtCellIsst with rich+phonetic / BrtFmlaString), xls (SST with runs and ExtRst, LABEL, FORMULA+STRING, 8/16-bit) and ods (text:s, text:tab, text:line-break, several paragraphs, spans) likewise; long strings (to 32767 units) in the thorough tier.",
+   text="Exploration of the string space (XML specials, edge/repeated spaces, TAB/LF/CR, combining marks, astral characters, empty, up to 32767 units) crossed with storage forms. xlsx: shared/inline/t=str, plain/rich runs/phonetic, entities/hex/decimal references/CDATA, empty shared items of four kinds before and between used items (index alignment). xlsb (BrtCellSt / BrtCellIsst with rich+phonetic / BrtFmlaString), xls (SST with runs and ExtRst, LABEL, FORMULA+STRING, 8/16-bit) and ods (text:s, text:tab, text:line-break, several paragraphs, spans) likewise; long strings (to 32767 units) in the thorough tier. A bigtable sub-check uses shared-string tables of 65537-66500 entries (indices beyond 16 bits) in xlsx, xlsb and xls; a few long-string cases (to 32767 units) run in the quick tier too.",
    note="Trusts the encoders' escaping routines. XML formats are restricted to XML 1.0 characters; _xHHHH_ escapes are not generated.",
    design="4/C19"),
  "C02": dict(
    technique="property-based round-trip/differential testing (proptest) through a harness-written BIFF8 + compound-file encoder; metamorphic relation over all valid encodings of each number (NUMBER / RK int / int/100 / float / float/100 / MULRK grouping); exhaustive enumeration of all 2^32 RK words against a reference decoder (thorough; every 1021st word in quick)",
-   text="Generated workbooks with every cell record kind at boundary-heavy positions (up to row 65535 / column 255), unknown and bookkeeping records interleaved, the rows of the cell table written ascending, descending or rotated, are read back and compared with the MS-XLS semantics of each record; each case is read under two choices of encodings of the same numbers. The RK decoder is additionally enumerated over its complete 32-bit domain.",
+   text="Generated workbooks with every cell record kind at boundary-heavy positions (up to row 65535 / column 255), unknown and bookkeeping records interleaved, the rows of the cell table written ascending, descending or rotated, are read back and compared with the MS-XLS semantics of each record; each case is read under two choices of encodings of the same numbers. The RK decoder is additionally enumerated over its complete 32-bit domain. Also: inline LABEL/STRING texts of 255-4000 characters, an ARRAY record between FORMULA and STRING, a date XF in the table, SST strings cut into segments of different packing in the second reading, and a 66k-entry shared-string table.",
    note="Trusts the harness BIFF8 writer (enc/biff8.rs), its reference RK decoder and the CFB writer. Cell records are written in row order; formula strings fit one STRING record.",
    design="4/C02"),
  "C04": dict(
@@ -55,7 +55,7 @@ CHECKS = {
    design="4/C12"),
  "C13": dict(
    technique="property-based differential testing (proptest) with a compound-file writer that takes the physical layout as a generated parameter (sector size, sector permutation for every chain incl. FAT/DIFAT/directory/mini-FAT/mini-stream container, free sectors, directory order, mini-sector permutation, trailing bytes); every stream is compared with its logical bytes under the generated and the canonical layout; the writer is cross-checked by an independent reader in the harness",
-   text="Stream sizes are steered onto 0/1/63/64/65/4095/4096/4097 and sector multiples +-1; three >7 MB cases per quick run (24 thorough) force a DIFAT chain. Through the cfb_stream hook and end-to-end: the C02/C12 workbooks are stored under generated layouts.",
+   text="Stream sizes are steered onto 0/1/63/64/65/4095/4096/4097 and sector multiples +-1; three >7 MB cases per quick run (24 thorough) force a DIFAT chain. Through the cfb_stream hook and end-to-end: the C02/C12 workbooks are stored under generated layouts. Further sub-checks: containers with one and with two DIFAT sectors (7 MB / 16 MB), with more than one mini-FAT sector (18-32 streams just under 4096 bytes, both sector sizes), and with an over-allocated FAT (1-8 or 40 spare FAT sectors).",
    note="Trusts enc/cfb.rs (self-checked on every case by enc::cfb::read_back; a self-check failure exits 2, never 1). Stream names unique per file.",
    design="4/C13"),
  "C17": dict(
@@ -65,22 +65,22 @@ CHECKS = {
    design="4/C17"),
  "C03": dict(
    technique="property-based round-trip/differential testing (proptest) through a harness-written XLSB (BIFF12 record framing + ZIP) encoder; the model gives the expected value of every record kind; uninterpreted records (unknown ids, multi-byte ids and lengths) are interleaved; each number is stored under a generated choice of BrtCellRk / BrtCellReal / BrtFmlaNum",
-   text="Generated workbooks with every cell and formula record kind under generated BrtRowHdr sequences (gaps, empty rows, boundary rows/columns up to the last row 1048575 and column 16383; uninterpreted records with 1- to 4-byte lengths, the latter >= 2 MiB), shared strings with rich/phonetic payload, uninterpreted records between, before and after cells, error-valued and string-valued formulas; bounds, every value and used_cells are compared with the model through worksheet_range and worksheet_range_ref. Exploration: sheets up to a few dozen cells, three sheets.",
+   text="Generated workbooks with every cell and formula record kind under generated BrtRowHdr sequences (gaps, empty rows, boundary rows/columns up to the last row 1048575 and column 16383; uninterpreted records with 1- to 4-byte lengths, the latter >= 2 MiB), shared strings with rich/phonetic payload, uninterpreted records between, before and after cells, error-valued and string-valued formulas; bounds, every value and used_cells are compared with the model through worksheet_range and worksheet_range_ref. Exploration: sheets up to a few dozen cells, three sheets. Also BOM-like strings, fPhShow set in cell headers, and a 66k-entry shared-string table.",
    note="Trusts enc/xlsb.rs (varint framing, record layouts written from MS-XLSB) and its expected-value table. Parts use the names every producer writes; BrtWsDim present; rows ascend.",
    design="4/C03"),
  "C06": dict(
    technique="structure-aware fault-injection fuzzing plus coverage-guided fuzzing: proptest-generated fault lists applied to valid documents of 14 kinds built by the harness encoders (field-level boundary values, truncation, record length lies, token surgery on formula records, FAT/DIFAT/directory edits incl. cycles with inflated counts, XML attribute and reference edits, repeat counts, OVBA chunk edits, raw byte mutations); the same documents unfaulted; an exhaustive sweep of every formula token id x 0-11 operand bytes in xls and xlsb; thorough adds two libFuzzer targets (raw bytes; part list packed into a zip inside the target) whose artifacts are re-classified by the same oracle. Oracle = every reader and every read call returns, under fork-per-case isolation with a counting/limiting allocator (memory), thread-CPU clock and double-confirmed timeout (time), panic capture with overflow checks on; saved regression corpus of one input per historical panic signature",
-   text="Each case assembles a valid file, applies 1-3 faults aimed at a structural element (so that inputs get past the container checks), and drives the complete read API of all four readers, auto-detection and the VBA reader in a forked child with debug assertions and overflow checks enabled. Verdicts: panic (signature = source line text), allocation taking the live heap beyond 256 MiB for inputs <= 1 MiB (refused by the allocator, attributed to the owner of the largest block), > 10 s CPU or no return within the case timeout twice. Quick: 16k faulted + 4k well-formed files + 6096 token/length combinations + 85 regression inputs; thorough: 400k + 100k + 12192 + a 10-minute two-target libFuzzer campaign. Exploration: the fault menu is fixed; libFuzzer is bounded by time.",
+   text="Each case assembles a valid file of one of 14 kinds, applies 1-3 faults aimed at a structural element (so that inputs get past the container checks), and drives the complete read API of all four readers, auto-detection and the VBA reader in a persistent worker process with debug assertions and overflow checks enabled. Verdicts: panic (signature = source line text), allocation taking the live heap beyond 256 MiB for inputs <= 1 MiB (refused by the allocator, attributed to the owner of the largest block), > 10 s CPU or no answer within the case timeout twice. Quick: 48k faulted + 12k well-formed files + 6096 token/length combinations + about 26k items of a deterministic boundary sweep (every field position near the start of every record x 10 boundary values, every XML attribute x its menu, cut points, dropped end tags, compound-file header/FAT/directory words; every 4th item, all in thorough) + 86 regression inputs; thorough: 400k + 100k + 12192 + the full sweep over two document sets + a 10-minute two-target libFuzzer campaign. Exploration: the fault menu is fixed; libFuzzer is bounded by time.",
    note="Three recorded known findings (dense Range allocation, identified by the allocating call site from_sparse / new / ods get_range) are tolerated by signature and printed as KNOWN-FINDING; any other signature is a violation. Time limits are CPU-time based with a wall-clock confirmation; a harness failure to isolate exits 2.",
    design="4/C06"),
  "C07": dict(
    technique="model-based (stateful) property testing with proptest: generated histories of read calls (values, refs, formulas, merges, tables owned and borrowed, VBA, metadata, header-row changes, unknown and near-miss names) run against one long-lived workbook and against the same bytes opened through auto-detection; oracle = the same call on a freshly opened workbook with only the header-row option replayed (first occurrence of each call/option pair), a memo for repeats, the default reads against the logical model, plus the agreement relations between access paths after every step",
-   text="Histories of 5-40 calls over workbooks of all four formats built by the harness encoders, with several sheets, formulas, merges, tables and a VBA project. Each result is rendered and compared with the fresh-workbook result and with earlier identical calls; worksheet_range vs worksheet_range_ref vs worksheet_range_at vs worksheets() are compared where the statement requires; unknown names and names that differ from a sheet name only in case, padding or a dropped character must fail. Exploration: small workbooks, 24k histories quick / 60k thorough.",
+   text="Histories of 5-40 calls over workbooks of all four formats built by the harness encoders, with several sheets, formulas, merges, tables and a VBA project. Each result is rendered and compared with the fresh-workbook result and with earlier identical calls; worksheet_range vs worksheet_range_ref vs worksheet_range_at vs worksheets() are compared where the statement requires; unknown names and names that differ from a sheet name only in case, padding or a dropped character must fail. Exploration: small workbooks, 24k histories quick / 60k thorough. A second sub-check writes each workbook to a scratch file under every extension alias of its format and under unknown extensions and requires open_workbook_auto(path) to choose the right reader and return the same sheets. Workbooks include chart sheets among the worksheets, sheet names whose workbook order is not their sorted order, and xls files with a VBA project.",
    note="Results are compared through Debug rendering (errors only by the fact of failing). Header rows far above the data are not generated (dense Range, see C06 known findings).",
    design="4/C07"),
  "C08": dict(
    technique="property-based metamorphic testing (proptest): one generated logical sheet encoded in all four formats by the harness encoders; for generated header rows n the read is compared with the default read (same value at every absolute position with row >= n, nothing from rows < n, start row exactly n or empty range), then the option is changed back",
-   text="Sheets whose first used row lies anywhere from 0 to a few hundred, with interior gaps and a used column range not starting at A; header rows below, at, inside and beyond the data, sequences of option changes (None -> n -> m -> FirstNonEmptyRow) on one workbook. xlsx, xlsb, xls and ods in every case.",
+   text="Sheets whose first used row lies anywhere from 0 to a few hundred, with interior gaps and a used column range not starting at A; header rows below, at, inside and beyond the data, sequences of option changes (None -> n -> m -> FirstNonEmptyRow) on one workbook. xlsx, xlsb, xls and ods in every case. Data may lie at the very end of the sheet (last row as header row); the declared used range is absent, exact, stale or too large; reads are repeated under one option; the xls reader is also opened with the option given at construction (XlsOptions).",
    note="Trusts the four encoders. Column extents are constrained only through values (eager and lazy readers pad differently).",
    design="4/C08"),
  "C14": dict(
